@@ -18,6 +18,8 @@ def run(ctx):
     S.key_role(ctx, L)
     ctx.rule("R-DELIVER-GUARD", "delivery: complete -> truncate -> once -> remove -> ack iff destination-specific", floor=3)
     S.deliver_guard(ctx, L)
+    ctx.rule("R-REFRESH", "each appended, non-completing data packet re-arms the receive deadline", floor=2)
+    S.refresh(ctx, L)
     ctx.rule("R-ORDER-SEND", "state advanced before RTS / connection-mode DT is handed to the bus", floor=2)
     S.order_send(ctx, L)
     ctx.rule("R-CTS-BORDER", "responder window bookkeeping is mutually consistent (no stall for unequal windows)", floor=2)
@@ -28,6 +30,11 @@ def run(ctx):
     F.window_affine(ctx, L)
     ctx.rule("R-FORWARD-NAMES", "ECU.send_pgn / notify forward their parameters by name", floor=2)
     D.forward_names(ctx, classes=("ElectronicControlUnit",))
+    from rules import layout as LY
+    ctx.rule("R-SINGLE-FRAME", "single frames carry the arguments in the identifier and the payload unchanged", floor=1)
+    LY.single_frame(ctx, L)
+    ctx.rule("R-DELIVER-ARGS", "single-frame delivery hands listeners the frame's own priority, PGN, source, destination, data", floor=2)
+    LY.deliver_args(ctx, L)
     ctx.rule("R-DEST-CLASS", "BAM iff PS==255 or PDU2, RTS/CTS to PS otherwise; single frame iff len<=8", floor=3)
     T.dest_class(ctx, L)
     ctx.rule("R-REFUSE", "send_pgn returns False only when the pair is busy, without effects", floor=1)
